@@ -120,6 +120,7 @@ def run(R):
     r19(R)
     r20(R)
     r21(R)
+    r22(R)
     r14(R)
     r15(R)
 
@@ -1720,3 +1721,35 @@ def seen_scope(R, rid):
 
 def r21(R):
     seen_scope(R, "C01-R21")
+
+
+def r22(R):
+    """a fold starts from the identity of its operator"""
+    prog = R.prog
+    R.rule("C01-R22", "a fold starts from the identity of its operator: where the aggregation code reduces numbers with `fold(init, f)` and `f` is a named "
+                      "operator, `init` is that operator's identity - `f64::max`: NEG_INFINITY or f64::MIN; `f64::min`: INFINITY or f64::MAX; addition: 0; "
+                      "multiplication: 1. `f64::MIN_POSITIVE` is the smallest *positive* number: `MAX` over {-4, -7, -2.5} then answers 2.2e-308")
+    IDENT = {"max": ("NEG_INFINITY", "::MIN", "-inf"), "min": ("::INFINITY", "::MAX", "inff64", "inf"),
+             "add": ("0f64", "0_f64", "0.0", "-0f64"), "mul": ("1f64", "1_f64", "1.0"), "saturating_add": ("0_",), "wrapping_add": ("0_",)}
+    n = 0
+    for b in sorted(prog.bodies.values(), key=lambda x: x.key):
+        if b.crate != "kolibrie" or "::tests::" in b.key or not (b.file.endswith("execute_query.rs") or b.file.endswith("execution/engine.rs")):
+            continue
+        for c in b.calls():
+            if c.name() != "fold" or len(c.args) != 3:
+                continue
+            init, f = c.args[1], c.args[2]
+            fn = str(f.get("fn") or "")
+            op = fn.rsplit("::", 1)[-1] if f.get("k") == "const" and fn else None
+            if op not in IDENT or init.get("k") != "const":
+                continue
+            n += 1
+            R.saw(b)
+            d = str(init.get("d") or init.get("v") or "")
+            ok = any(tok in d for tok in IDENT[op]) and not ("MIN_POSITIVE" in d)
+            if op == "max" and d.endswith("::MIN") is False and "NEG_INFINITY" not in d and "-inf" not in d:
+                ok = False
+            R.ob("C01-R22", "identity:%s:%s:%d" % (b.name if not b.is_closure else "closure", op, n), "the fold with `%s` in %s starts from that operator's identity (starts from %s)"
+                 % (op, b.short, d), ok, where=b.where(c.ln),
+                 detail=None if ok else "a start value that is not the identity takes part in the result whenever no element beats it")
+    R.ob("C01-R22", "scanned", "folds with a named operator in the aggregation code: %d" % n, True)
